@@ -534,6 +534,36 @@ def r8_call_assembly(repo):
     return obs
 
 
+TYPE_ATTRS = {"param_type", "field_type", "ret_type", "inferred_type", "type_parameters", "params", "bound"}
+
+
+def r9_inherited_members(repo):
+    """Members seen through a subclass are copies of the declared ones with only their types substituted."""
+    obs = []
+    for name in ("get_callable_functions", "get_abstract_functions", "get_all_fields"):
+        f = repo.method("src.ir.ast.ClassDeclaration", name, inherited=False)
+        g = cfg_of(f.node)
+        fresh = {}
+        for n in iter_own_nodes(f.node):
+            if isinstance(n, ast.Assign) and isinstance(n.targets[0], ast.Name) and isinstance(n.value, ast.Call):
+                cn = call_name(n.value)
+                if cn == "deepcopy":
+                    fresh[n.targets[0].id] = ("deepcopy", n)
+                elif cn in ("ParameterDeclaration", "FunctionDeclaration", "FieldDeclaration"):
+                    fresh[n.targets[0].id] = ("rebuilt", n)
+        rebuilt = [k for k, v in fresh.items() if v[0] == "rebuilt"]
+        stores = [n for n in iter_own_nodes(f.node) if isinstance(n, ast.Assign) and isinstance(n.targets[0], ast.Attribute)
+                  and isinstance(n.targets[0].value, ast.Name) and n.targets[0].value.id in fresh]
+        other = sorted({n.targets[0].attr for n in stores} - TYPE_ATTRS)
+        ctor_calls = [c for c in calls_in(f.node) if call_name(c) in ("ParameterDeclaration", "FunctionDeclaration", "FieldDeclaration")]
+        ok = bool(fresh) and not rebuilt and not other and not ctor_calls
+        obs.append(Ob("C01-R9", "%s:members-are-deep-copies-with-substituted-types" % name, _w(f), ok,
+                      "inherited members must be deepcopy(<member>) with only type attributes reassigned (%s); rebuilding a "
+                      "declaration by hand drops attributes such as vararg / default / override: rebuilt %s, constructor calls %s, "
+                      "other attributes written %s" % (sorted(TYPE_ATTRS), rebuilt, [src(c)[:40] for c in ctor_calls], other)))
+    return obs
+
+
 def rules():
     return [
         RuleSpec("C01-R1", "direction of every compatibility test in the generator", 8, r1_direction),
@@ -544,6 +574,7 @@ def rules():
         RuleSpec("C01-R6", "inheritance obligations", 5, r6_inheritance),
         RuleSpec("C01-R7", "expected types are only narrowed, under the subtype flag", 4, r7_narrowing),
         RuleSpec("C01-R8", "call / constructor nodes assembled from the selected candidate", 3, r8_call_assembly),
+        RuleSpec("C01-R9", "inherited members are deep copies with substituted types", 3, r9_inherited_members),
     ]
 
 
@@ -650,6 +681,12 @@ def _v_new_other_args(tree):
     st.value = V.parse_expr("tu.instantiate_type_constructor(new_type, self.get_types())[0]")
 
 
+def _v_rebuilt_param(tree):
+    f = V.find_def(tree, "ClassDeclaration.get_callable_functions")
+    st = V.one([n for n in ast.walk(f) if isinstance(n, ast.Assign) and ast.unparse(n.targets[0]) == "new_p"])
+    st.value = V.parse_expr("ParameterDeclaration(p.name, p.get_type(), default=p.default)")
+
+
 def _t_rename(tree):
     f = V.find_def(tree, "Generator._gen_func_call")
     V.rename_local(f, "rand_func", "picked")
@@ -675,6 +712,7 @@ def variants():
         V.Variant("narrowing ignores the caller's subtype flag", g, _v_narrow_always, {"C01-R7"}),
         V.Variant("explicit type arguments listed in reverse order", g, _v_type_args_reversed, {"C01-R8"}),
         V.Variant("created object re-instantiated with fresh type arguments", g, _v_new_other_args, {"C01-R8"}),
+        V.Variant("inherited parameters rebuilt by hand (vararg flag lost)", "src/ir/ast.py", _v_rebuilt_param, {"C01-R9"}),
         V.Variant("twin: rename locals in _gen_func_call", g, _t_rename, None, twin=True),
         V.Variant("twin: whole tree reformatted by ast.unparse", None, None, None, twin=True),
     ]
